@@ -222,6 +222,7 @@ func check(args []string) int {
 	results := make([]*WorkerResult, *workers)
 	fails := make([]string, *workers)
 	crashes := make([]*crashInfo, *workers)
+	emergencies := make([][]byte, *workers)
 	var wg sync.WaitGroup
 	for w := 0; w < *workers; w++ {
 		wg.Add(1)
@@ -234,6 +235,12 @@ func check(args []string) int {
 				"VERIF_OUT": out, "VERIF_KNOWN": knownPath, "VERIF_REPLAY_DIR": replayDir,
 			}, nil)
 			b, err := os.ReadFile(out)
+			if err != nil && code == 4 {
+				if eb, eerr := os.ReadFile(out + ".emergency.json"); eerr == nil {
+					emergencies[w] = eb
+					return
+				}
+			}
 			if err != nil {
 				fails[w] = fmt.Sprintf("worker %d exit %d, no result file\n%s", w, code, stderr)
 				if pb, perr := os.ReadFile(out + ".progress"); perr == nil {
@@ -323,6 +330,41 @@ func check(args []string) int {
 			fmt.Printf("violation fingerprint: %s\ndetail: %s\n", vf.Fingerprint, vf.Detail)
 		} else {
 			harness = append(harness, fmt.Sprintf("violation %s did not replay in a fresh process (exit %d): %s %s", vf.Fingerprint, code, ob, stderr))
+		}
+	}
+
+	// a worker stopped itself because an engine could not be stopped any more (emergency replay file):
+	// confirm by replaying in a fresh process, which must end the same way
+	for w, eb := range emergencies {
+		if eb == nil || exit == 1 {
+			continue
+		}
+		var ef struct {
+			Fingerprint string `json:"fingerprint"`
+			Seed        uint64 `json:"seed"`
+			Detail      string `json:"detail"`
+		}
+		json.Unmarshal(eb, &ef)
+		path := filepath.Join(replayDir, fmt.Sprintf("%s-%d-%d-emergency.json", id, seed, w))
+		os.WriteFile(path, eb, 0o644)
+		tmp, _ := os.CreateTemp(scratch, "emerg-out-")
+		code, stderr := runWorker(worker, map[string]string{"VERIF_PROP": id, "VERIF_TIER": *tier, "VERIF_REPLAY": path}, tmp)
+		tmp.Close()
+		ob, _ := os.ReadFile(tmp.Name())
+		if code == 4 && strings.Contains(string(ob), "REPLAY fingerprint="+ef.Fingerprint+" ") {
+			violations = 1
+			exit = 1
+			violLine = fmt.Sprintf("VIOLATION property=%s replay=%s", id, path)
+			fmt.Printf("violation fingerprint: %s\ndetail: %s\n", ef.Fingerprint, tailStr(ef.Detail, 1500))
+			var keep []string
+			for _, h := range harness {
+				if !strings.HasPrefix(h, fmt.Sprintf("worker %d exit", w)) {
+					keep = append(keep, h)
+				}
+			}
+			harness = keep
+		} else {
+			harness = append(harness, fmt.Sprintf("worker %d: emergency stop %s did not reproduce (exit %d): %s %s", w, ef.Fingerprint, code, ob, tailStr(stderr, 500)))
 		}
 	}
 
@@ -512,6 +554,10 @@ func replay(args []string) int {
 	tmp.Close()
 	ob, _ := os.ReadFile(tmp.Name())
 	fmt.Print(string(ob))
+	if code == 4 && strings.Contains(string(ob), "REPLAY fingerprint="+rf.Fingerprint+" ") {
+		fmt.Printf("VIOLATION property=%s replay=%s\n", rf.Property, path)
+		return 1
+	}
 	if code != 0 {
 		fmt.Fprintln(os.Stderr, stderr)
 		if rf.Generate && code != 2 {
